@@ -58,12 +58,16 @@ def service_cases(tier, inst):
                 if tier == "quick" and li > 0 and ui in (2, 6, 8, 9, 10):
                     continue
                 yield {"streams": ms, "zones": labels, "uset": ui, "inst": list(inst)}
+    # unit-operation targeting on: every stream is its own operation zone
+    for ms in P.stream_multisets(inst, 4, 2, cps=(1, 2), dts=(1,), iso=True, min_n=2):
+        for ui in (0, 3, 5):
+            yield {"streams": ms, "zones": ["A", "A"], "uset": ui, "inst": list(inst), "options": {"DO_DIRECT_OPERATION_TARGETING": True}}
 
 
 def service_run(case, res: Result):
     usets = P.utility_sets(tuple(case["inst"]), 4, "large")
     streams = [tuple(s) for s in case["streams"]]
-    prob = A.problem(streams, case["zones"], utilities=usets[case["uset"]])
+    prob = A.problem(streams, case["zones"], utilities=usets[case["uset"]], options=case.get("options"))
     out, master = S.run(prob)
     nontriv = False
     outcome = []
@@ -72,7 +76,7 @@ def service_run(case, res: Result):
         kind = S.kind_of_record(key)
         if kind == S.DI:
             Qh, Qc = t.hot_utility_target, t.cold_utility_target
-            idxs = S.expected_members(prob, path)
+            idxs = S.members_of_zone(prob, path, z)
             hot, cold = S.duties(prob, idxs)
             eps = 1e-6 * max(hot + cold, 1e-9)
             hu = [(u.name, float(u.heat_flow)) for u in t.hot_utilities]
